@@ -78,7 +78,7 @@ PROPS = {
         "assumptions": ["the model reads ASCII texts; unicode.IsLetter on other runes is not modelled (such texts go through the implementation-side oracles only)",
                         "(nil, nil) from ParseSrc is the empty tree; it is accepted only for texts whose tokens are all separators"],
         "partial": ["termination and position theorems are about the scanner; termination of the LALR driver and the shape of trees (concatenation, no carried-over "
-                    "value-stack slots) are decided by the oracle stream only", "lex_concat (token stream of a + newline + b) is not yet a theorem"],
+                    "value-stack slots) are decided by the oracle stream only"],
     },
     "C13": {
         "gens": ["EnvLocks"],
@@ -306,7 +306,9 @@ MANIFEST_TEXT = {
                 "runs out of fuel (each iteration advances the cursor, including the back()-and-retry loop of block comments and the escape "
                 "handling of strings), the cursor/line bookkeeping invariant is kept by next() and by every use of back(), every token "
                 "other than EOF consumes input, and every position handed to the parser - of a token or of the first error - is a position of "
-                "the text: line within the text's lines, column at most one past the end of that line; an error-free run ends with EOF. "
+                "the text: line within the text's lines, column at most one past the end of that line; an error-free run ends with EOF; lex_concat: if two "
+                "texts scan without error, the token stream of `a + newline + b` is a's tokens (EOF replaced by the newline token), then b's "
+                "tokens with lines shifted by a's line count (locality of every scanner function seen through a window, fuel-independent). "
                 "Correspondence: real Scanner vs model token by token (kind, literal, line:column, error) on generated programs, mutations, "
                 "token soups. Search/oracle on ParseSrc: panic/timeout guard, error type, position range, same tree on re-parse and under 16 "
                 "concurrent parses, concatenation of texts that parse = concatenation of statement lists with shifted positions.",
